@@ -41,6 +41,14 @@ Definition ss_adopt (ss : snapstore) (g : dbdig) : snapstore :=
 Definition db_matches (db : sdb) (g : dbdig) : bool :=
   list_eqb ddoc_eqb (s_dts db) (g_dts g) && list_eqb odig_eqb (map odig_of (s_ops db)) (g_ops g).
 
+(* after a concurrent round: documents of different datatypes were written in an order the log does not determine; the
+   model's store is brought into the observed order (same documents, same operations per datatype in the same order) *)
+Definition reorder_db (db : sdb) (g : dbdig) : option sdb :=
+  let ops' := map (fun od => find (fun o => odig_eqb (odig_of o) od) (s_ops db)) (g_ops g) in
+  if same_set ddoc_eqb (s_dts db) (g_dts g) && Nat.eqb (length (s_ops db)) (length (g_ops g)) && forallb (fun x => match x with Some _ => true | None => false end) ops'
+  then Some (mkSdb (s_cols db) (s_colctr db) (s_clients db) (g_dts g) (flat_map (fun x => match x with Some o => [o] | None => [] end) ops'))
+  else None.
+
 Definition pub_eqb (a b : publish) : bool :=
   str_eqb (pb_col a) (pb_col b) && str_eqb (pb_key a) (pb_key b) && str_eqb (pb_cuid a) (pb_cuid b) &&
   str_eqb (pb_duid a) (pb_duid b) && N.eqb (pb_sseq a) (pb_sseq b).
@@ -88,7 +96,11 @@ Section Check.
   | WApply (di : nat) (resp : ppp) (a : aobs)                                    (* a held-back or second response is applied *)
   | WRaw (col cuid : str) (req resp : ppp) (g : dbdig) (pubs : list publish)     (* a mutated request, response not applied *)
   | WRawErr (col cuid : str) (req : ppp) (rpc : N) (g : dbdig)                   (* refused by ProcessPushPull itself *)
-  | WSnapUpd (col : str) (d : ddoc) (g : dbdig).          (* UpdateSnapshot runs (again) with a datatype document captured earlier *)
+  | WSnapUpd (col : str) (d : ddoc) (g : dbdig)           (* UpdateSnapshot runs (again) with a datatype document captured earlier *)
+  (* a round of requests that were served CONCURRENTLY, listed in the one-at-a-time order read off the stored log (by
+     the log position each response reports); a refused request changed nothing and may stand anywhere from its listed
+     place on; the store is compared after the round *)
+  | WRound (items : list (str * str * ppp * ppp)) (g : dbdig).
 
   Record wsys := mkWsys { ws_db : sdb; ws_dts : list (str * str * wdty); ws_ss : snapstore }.    (* (collection, cuid, datatype) *)
 
@@ -109,7 +121,7 @@ Section Check.
     str_eqb (w_duid w) (ao_duid o) && cp_eqb (d_cp (w_d w)) (ao_cp o) &&
     val_eqb (k_view (d_snap (w_d w))) (ao_view o) && Z.eqb (k_size (d_snap (w_d w))) (ao_size o).
 
-  Definition wstep (s : wsys) (e : wev) : option wsys :=
+  Definition wstep0 (s : wsys) (e : wev) : option wsys :=
     match e with
     | WCollection name => Some (mkWsys (create_collection (ws_db s) name) (ws_dts s) (ws_ss s))
     | WClient col cuid err =>
@@ -183,6 +195,39 @@ Section Check.
         let ss' := if N.eqb (dd_type d) k_type
                    then update_snapshot St k_init k_remote k_marshal k_unmarshal k_view (ws_db s) (ws_ss s) col d else ws_ss s in
         if db_matches (ws_db s) g && ss_matches ss' g then Some (mkWsys (ws_db s) (ws_dts s) (ss_adopt ss' g)) else None
+    | WRound _ _ => None
+    end.
+
+  Definition item_matches (db : sdb) (it : str * str * ppp * ppp) : option sdb :=
+    let '(col, cuid, req, resp) := it in
+    match process_pushpull db col cuid [req] with
+    | (db', inl [(mresp, _)]) => if ppp_eqb mresp resp then Some db' else None
+    | _ => None
+    end.
+  Definition item_refused (it : str * str * ppp * ppp) : bool := has (p_opt (snd it)) bit_error.
+  Fixpoint round_go (db : sdb) (todo pending : list (str * str * ppp * ppp)) : option sdb :=
+    match todo with
+    | [] => match pending with [] => Some db | _ => None end
+    | it :: rest =>
+        match item_matches db it with
+        | Some db' =>
+            (* the refused requests waiting for their place: those that the model refuses the same way now are placed *)
+            round_go db' rest (filter (fun p => match item_matches db' p with Some _ => false | None => true end) pending)
+        | None => if item_refused it then round_go db rest (pending ++ [it]) else None
+        end
+    end.
+
+  Definition wstep (s : wsys) (e : wev) : option wsys :=
+    match e with
+    | WRound items g =>
+        match round_go (ws_db s) items [] with
+        | Some db' => match reorder_db db' g with
+                      | Some db'' => Some (mkWsys db'' (ws_dts s) (mkSnapstore (g_snaps g) (g_real g)))
+                      | None => None
+                      end
+        | None => None
+        end
+    | _ => wstep0 s e
     end.
 
   Fixpoint wrun (s : wsys) (es : list wev) (i : nat) : option (nat * wsys) :=
@@ -196,6 +241,20 @@ Section Check.
   (* diagnosis: index of the first mismatching event and what the model has at that point *)
   Record wdiag := mkWdiag { wd_index : nat; wd_req : option ppp; wd_resp : option ppp; wd_dts : list ddoc;
                             wd_ops : list odig; wd_pubs : list publish; wd_client : option (cp * str * val * bool); wd_ss : snapstore }.
+  (* the first listed request of a round whose answer the model does not give at its place (and that is not a refusal) *)
+  Fixpoint round_diag (ss : snapstore) (i : nat) (db : sdb) (todo : list (str * str * ppp * ppp)) (k : nat) : wdiag :=
+    match todo with
+    | [] => mkWdiag (i * 100 + 99) None None (s_dts db) (map odig_of (s_ops db)) [] None ss
+    | it :: rest =>
+        match item_matches db it with
+        | Some db' => round_diag ss i db' rest (Datatypes.S k)
+        | None => if item_refused it then round_diag ss i db rest (Datatypes.S k)
+                  else match process_pushpull db (fst (fst (fst it))) (snd (fst (fst it))) [snd (fst it)] with
+                       | (db', inl [(mresp, _)]) => mkWdiag (i * 100 + k) (Some (snd (fst it))) (Some mresp) (s_dts db) (map odig_of (s_ops db)) [] None ss
+                       | (db', _) => mkWdiag (i * 100 + k) (Some (snd (fst it))) None (s_dts db) (map odig_of (s_ops db)) [] None ss
+                       end
+        end
+    end.
   Definition explain_whist (es : list wev) : option wdiag :=
     match wrun (mkWsys sdb_init [] snapstore_init) es 0%nat with
     | None => None
@@ -220,6 +279,7 @@ Section Check.
             | (db', inl [(mresp, mpubs)]) => Some (mkWdiag i (Some req) (Some mresp) (s_dts db') (map odig_of (s_ops db')) mpubs None (after_pack db' (ws_ss s) col mpubs))
             | (db', _) => Some (mkWdiag i (Some req) None (s_dts db') (map odig_of (s_ops db')) [] None (ws_ss s))
             end
+        | Some (WRound items g) => Some (round_diag (ws_ss s) i (ws_db s) items 0%nat)
         | _ => Some (mkWdiag i None None (s_dts (ws_db s)) (map odig_of (s_ops (ws_db s))) [] None (ws_ss s))
         end
     end.
@@ -236,6 +296,7 @@ Arguments WApply {call}.
 Arguments WSyncRpc {call}.
 Arguments WRawErr {call}.
 Arguments WSnapUpd {call}.
+Arguments WRound {call}.
 
 Definition check_wire_counter : list (wev ccall) -> bool :=
   check_whist cstate ccall val cstate c_init c_validate c_local' c_exec_remote id_ id_ c_view (fun s => s) RVal 0 c_marshal c_unmarshal.
